@@ -1,3 +1,590 @@
-"""placeholder; replaced below"""
-def regenerate():
-    return {}
+"""Fail-closed Python-ast -> Gallina translator for the pure integer / list / threshold functions of qclib.
+
+Every run of ./check regenerates coq/theories/Gen_*.v from /repo's working tree.  The theorems in P_*.v are
+stated about these generated definitions, so an edit of a Python formula re-states the theorem.  Anything the
+translator does not understand raises Unsupported with the source line: the tie is then reported as broken.
+
+Supported subset (types: Z, bool, list Z, 'binary string' = (value, width) produced by f"{k:0{n}b}"):
+  statements  : docstring, x = e, x += e, x -= e, if/elif/else, return e, for v in range(..)/list, x.append(e),
+                x.extend(range(a, b))
+  expressions : int constants, names, + - * // % ** & | >> <<, unary -, comparisons, and/or/not, a if c else b,
+                int(e), int(ceil(q)), int(np.ceil(q)) (q a rational expression with / ), int(np.floor(np.log2(e))),
+                int(log2(e)), len(l), sum(e for v in l), sum(<bool> for v in l), binomial(a, b), list(range(..)),
+                [..], l1 + l2, s[q] == "1", calls of other translated functions (mutual recursion through fuel),
+                min/max, abs
+"""
+import ast
+import os
+import textwrap
+
+REPO = "/repo"
+THEORIES = "/verif/coq/theories"
+
+
+class Unsupported(Exception):
+    pass
+
+
+Z, B, L, S = "Z", "bool", "list", "bstr"
+
+
+class Fn:
+    def __init__(self, tr, node, cfg):
+        self.tr = tr
+        self.node = node
+        self.cfg = cfg
+        self.types = dict(cfg.get("param_types", {}))
+        self.counter = 0
+
+    def fail(self, node, why):
+        raise Unsupported(f"{self.tr.relpath}:{getattr(node, 'lineno', '?')}: {why}: {ast.unparse(node)[:100] if isinstance(node, ast.AST) else node}")
+
+    def fresh(self, base):
+        self.counter += 1
+        return f"{base}_{self.counter}"
+
+    # ------------------------------------------------------------------ expressions
+    def expr(self, e, want=None):
+        """returns (gallina, type)"""
+        g, t = self._expr(e)
+        if want is not None and t != want:
+            if want == Z and t == B:
+                return f"(Z.b2z {g})", Z
+            if want == B and t == Z:
+                return f"(negb ({g} =? 0))", B
+            self.fail(e, f"type {t}, expected {want}")
+        return g, t
+
+    def _expr(self, e):
+        if isinstance(e, ast.Constant):
+            if isinstance(e.value, bool):
+                return ("true" if e.value else "false"), B
+            if isinstance(e.value, int):
+                return f"({e.value})", Z
+            if isinstance(e.value, str) and e.value in self.tr.enums:
+                return f"({self.tr.enums[e.value]})", Z
+            if e.value is None and "None" in self.tr.enums:
+                return f"({self.tr.enums['None']})", Z
+            self.fail(e, "constant")
+        if isinstance(e, ast.Name):
+            if e.id in self.tr.consts:
+                return f"({self.tr.consts[e.id]})", Z
+            if e.id not in self.types:
+                self.fail(e, "unknown variable")
+            return e.id, self.types[e.id]
+        if isinstance(e, ast.UnaryOp):
+            if isinstance(e.op, ast.USub):
+                a, _ = self.expr(e.operand, Z)
+                return f"(- {a})", Z
+            if isinstance(e.op, ast.Not):
+                a, _ = self.expr(e.operand, B)
+                return f"(negb {a})", B
+            self.fail(e, "unary operator")
+        if isinstance(e, ast.BinOp):
+            if isinstance(e.op, ast.Add):
+                a, ta = self._expr(e.left)
+                b, tb = self._expr(e.right)
+                if ta == L and tb == L:
+                    return f"({a} ++ {b})", L
+            a, _ = self.expr(e.left, Z)
+            b, _ = self.expr(e.right, Z)
+            ops = {ast.Add: "+", ast.Sub: "-", ast.Mult: "*", ast.FloorDiv: "/", ast.Mod: "mod", ast.Pow: "^"}
+            if type(e.op) in ops:
+                return f"({a} {ops[type(e.op)]} {b})", Z
+            fns = {ast.BitAnd: "Z.land", ast.BitOr: "Z.lor", ast.BitXor: "Z.lxor", ast.RShift: "Z.shiftr", ast.LShift: "Z.shiftl"}
+            if type(e.op) in fns:
+                return f"({fns[type(e.op)]} {a} {b})", Z
+            self.fail(e, "binary operator")
+        if isinstance(e, ast.Compare):
+            if len(e.ops) != 1:
+                self.fail(e, "chained comparison")
+            # s[q] == "1"
+            l, r = e.left, e.comparators[0]
+            if isinstance(l, ast.Subscript) and isinstance(r, ast.Constant) and r.value in ("0", "1"):
+                s, ts = self._expr(l.value)
+                if ts != S:
+                    self.fail(e, "subscript of non binary-string")
+                q, _ = self.expr(l.slice, Z)
+                t = f"(bstr_bit {s} {q})"
+                neg = (r.value == "0") != isinstance(e.ops[0], ast.NotEq)
+                if not isinstance(e.ops[0], (ast.Eq, ast.NotEq)):
+                    self.fail(e, "comparison of a character")
+                return (f"(negb {t})" if neg else t), B
+            a, ta = self._expr(l)
+            b, tb = self._expr(r)
+            if ta == B and tb == Z:
+                a = f"(Z.b2z {a})"
+            elif ta == Z and tb == B:
+                b = f"(Z.b2z {b})"
+            elif ta == B and tb == B:
+                if isinstance(e.ops[0], ast.Eq):
+                    return f"(Bool.eqb {a} {b})", B
+                if isinstance(e.ops[0], ast.NotEq):
+                    return f"(negb (Bool.eqb {a} {b}))", B
+                self.fail(e, "ordering of booleans")
+            elif ta != Z or tb != Z:
+                self.fail(e, "comparison of non-integers")
+            op = {ast.Eq: "=?", ast.Lt: "<?", ast.LtE: "<=?", ast.Gt: ">?", ast.GtE: ">=?"}.get(type(e.ops[0]))
+            if op:
+                return f"({a} {op} {b})", B
+            if isinstance(e.ops[0], ast.NotEq):
+                return f"(negb ({a} =? {b}))", B
+            self.fail(e, "comparison operator")
+        if isinstance(e, ast.BoolOp):
+            parts = [self.expr(v, B)[0] for v in e.values]
+            j = " && " if isinstance(e.op, ast.And) else " || "
+            return "(" + j.join(parts) + ")", B
+        if isinstance(e, ast.IfExp):
+            c, _ = self.expr(e.test, B)
+            a, ta = self._expr(e.body)
+            b, tb = self._expr(e.orelse)
+            if ta != tb:
+                self.fail(e, "branches of different types")
+            return f"(if {c} then {a} else {b})", ta
+        if isinstance(e, ast.List):
+            items = [self.expr(v, Z)[0] for v in e.elts]
+            return "[" + "; ".join(items) + "]", L
+        if isinstance(e, ast.JoinedStr):
+            # f"{k:0{n}b}"
+            if len(e.values) == 1 and isinstance(e.values[0], ast.FormattedValue):
+                fv = e.values[0]
+                spec = fv.format_spec
+                if (isinstance(spec, ast.JoinedStr) and len(spec.values) == 3
+                        and isinstance(spec.values[0], ast.Constant) and spec.values[0].value == "0"
+                        and isinstance(spec.values[1], ast.FormattedValue)
+                        and isinstance(spec.values[2], ast.Constant) and spec.values[2].value == "b"):
+                    k, _ = self.expr(fv.value, Z)
+                    n, _ = self.expr(spec.values[1].value, Z)
+                    return f"(mk_bstr {k} {n})", S
+            self.fail(e, "f-string")
+        if isinstance(e, ast.Call):
+            return self.call(e)
+        self.fail(e, "expression")
+
+    def fname(self, f):
+        if isinstance(f, ast.Name):
+            return f.id
+        if isinstance(f, ast.Attribute) and isinstance(f.value, ast.Name):
+            return f.value.id + "." + f.attr
+        return None
+
+    def range_args(self, call):
+        args = call.args
+        if len(args) == 1:
+            return "0", self.expr(args[0], Z)[0]
+        if len(args) == 2:
+            return self.expr(args[0], Z)[0], self.expr(args[1], Z)[0]
+        self.fail(call, "range with step")
+
+    def iterable(self, it):
+        """gallina list Z for an iterable expression"""
+        if isinstance(it, ast.Call) and self.fname(it.func) == "range":
+            a, b = self.range_args(it)
+            return f"(zrange {a} {b})"
+        g, t = self._expr(it)
+        if t != L:
+            self.fail(it, "iterable is not a list")
+        return g
+
+    def call(self, e):
+        f = self.fname(e.func)
+        if f == "int" and len(e.args) == 1:
+            inner = e.args[0]
+            fi = self.fname(inner.func) if isinstance(inner, ast.Call) else None
+            if fi in ("ceil", "np.ceil", "math.ceil"):
+                n, d = self.rat(inner.args[0])
+                return f"(ceil_div {n} {d})", Z
+            if fi in ("floor", "np.floor", "math.floor"):
+                i2 = inner.args[0]
+                if isinstance(i2, ast.Call) and self.fname(i2.func) in ("log2", "np.log2", "math.log2"):
+                    return f"(Z.log2 {self.expr(i2.args[0], Z)[0]})", Z
+                n, d = self.rat(i2)
+                return f"({n} / {d})", Z
+            if fi in ("log2", "np.log2", "math.log2"):
+                return f"(Z.log2 {self.expr(inner.args[0], Z)[0]})", Z
+            g, t = self._expr(inner)
+            if t == B:
+                return f"(Z.b2z {g})", Z
+            if t == Z:
+                return g, Z
+            self.fail(e, "int() of non-integer")
+        if f == "len" and len(e.args) == 1:
+            g, t = self._expr(e.args[0])
+            if t != L:
+                self.fail(e, "len of non-list")
+            return f"(zlen {g})", Z
+        if f in ("binomial", "comb", "math.comb") and len(e.args) == 2:
+            return f"(binomZ {self.expr(e.args[0], Z)[0]} {self.expr(e.args[1], Z)[0]})", Z
+        if f in ("min", "max") and len(e.args) == 2:
+            return f"(Z.{f} {self.expr(e.args[0], Z)[0]} {self.expr(e.args[1], Z)[0]})", Z
+        if f == "abs" and len(e.args) == 1:
+            return f"(Z.abs {self.expr(e.args[0], Z)[0]})", Z
+        if f == "list" and len(e.args) == 1:
+            return self.iterable(e.args[0]), L
+        if f == "range":
+            return self.iterable(e), L
+        if f == "sorted" and len(e.args) == 1:
+            return f"(zsort {self.iterable(e.args[0])})", L
+        if f == "sum" and len(e.args) == 1 and isinstance(e.args[0], ast.GeneratorExp):
+            gen = e.args[0]
+            if len(gen.generators) != 1 or gen.generators[0].ifs or not isinstance(gen.generators[0].target, ast.Name):
+                self.fail(e, "generator shape")
+            v = gen.generators[0].target.id
+            lst = self.iterable(gen.generators[0].iter)
+            saved = self.types.get(v)
+            self.types[v] = Z
+            body, _ = self.expr(gen.elt, Z)
+            if saved is None:
+                del self.types[v]
+            else:
+                self.types[v] = saved
+            return f"(zsum (map (fun {v} => {body}) {lst}))", Z
+        if f in self.tr.group_names(self.cfg):
+            ccfg = self.tr.cfg_by_name[f]
+            cparams = ccfg.get("params") or [a.arg for a in self.tr.funcs[f].args.args]
+            if e.keywords or len(e.args) != len(cparams):
+                self.fail(e, "call of a translated function must pass every argument positionally")
+            args = " ".join(self.expr(a, ccfg.get("param_types", {}).get(p, Z))[0] for a, p in zip(e.args, cparams))
+            fuel = ""
+            if self.tr.is_recursive(f):
+                fuel = "fuel " if self.cfg.get("recursive") else self.cfg["fuel_expr"] + " "
+            return f"({ccfg.get('rename', f)} {fuel}{args})", ccfg.get("ret_type", Z)
+        if f in self.tr.known_funcs:
+            args = " ".join(self.expr(a, Z)[0] for a in e.args)
+            return f"({self.tr.known_funcs[f]} {args})", Z
+        self.fail(e, "call")
+
+    def rat(self, e):
+        """rational expression -> (num, den) gallina Z terms, den > 0 provided literal denominators are positive"""
+        if isinstance(e, ast.Constant) and isinstance(e.value, int):
+            return f"({e.value})", "1"
+        if isinstance(e, ast.BinOp):
+            if isinstance(e.op, ast.Div):
+                (a, b), (c, d) = self.rat(e.left), self.rat(e.right)
+                return f"({a} * {d})", f"({b} * {c})"
+            if isinstance(e.op, ast.Mult):
+                (a, b), (c, d) = self.rat(e.left), self.rat(e.right)
+                return f"({a} * {c})", f"({b} * {d})"
+            if isinstance(e.op, (ast.Add, ast.Sub)):
+                (a, b), (c, d) = self.rat(e.left), self.rat(e.right)
+                s = "+" if isinstance(e.op, ast.Add) else "-"
+                return f"({a} * {d} {s} {c} * {b})", f"({b} * {d})"
+        g, _ = self.expr(e, Z)
+        return g, "1"
+
+    # ------------------------------------------------------------------ statements
+    def assigned(self, stmts):
+        out = []
+        for s in stmts:
+            for n in ast.walk(s):
+                if isinstance(n, (ast.Assign, ast.AugAssign)):
+                    tg = n.targets[0] if isinstance(n, ast.Assign) else n.target
+                    if isinstance(tg, ast.Name) and tg.id not in out:
+                        out.append(tg.id)
+                if isinstance(n, ast.Expr) and isinstance(n.value, ast.Call) and isinstance(n.value.func, ast.Attribute) \
+                        and n.value.func.attr in ("append", "extend") and isinstance(n.value.func.value, ast.Name):
+                    if n.value.func.value.id not in out:
+                        out.append(n.value.func.value.id)
+        return out
+
+    def has_return(self, stmts):
+        return any(isinstance(n, ast.Return) for s in stmts for n in ast.walk(s))
+
+    def always_returns(self, stmts):
+        if not stmts:
+            return False
+        s = stmts[-1]
+        if isinstance(s, ast.Return):
+            return True
+        if isinstance(s, ast.If):
+            return self.always_returns(s.body) and self.always_returns(s.orelse)
+        return False
+
+    def block(self, stmts, k):
+        """k: continuation producing the gallina term after these statements (None = must return)"""
+        if not stmts:
+            if k is None:
+                raise Unsupported(f"{self.tr.relpath}: function {self.node.name} can fall off its end")
+            return k()
+        s, rest = stmts[0], stmts[1:]
+        stop = self.cfg.get("stop_before")
+        if stop and ast.unparse(s).startswith(stop):
+            ret = self.cfg["return_var"]
+            return self.expr(ast.Name(id=ret, ctx=ast.Load()))[0]
+        if isinstance(s, ast.Expr) and isinstance(s.value, ast.Constant):
+            return self.block(rest, k)
+        if isinstance(s, ast.Return):
+            if s.value is None:
+                self.fail(s, "bare return")
+            g, t = self._expr(s.value)
+            want = self.cfg.get("ret_type", Z)
+            if t != want:
+                g, t = self.expr(s.value, want)
+            return g
+        if isinstance(s, ast.Assign):
+            if len(s.targets) != 1 or not isinstance(s.targets[0], ast.Name):
+                self.fail(s, "assignment target")
+            x = s.targets[0].id
+            g, t = self._expr(s.value)
+            if x in self.types and self.types[x] != t:
+                if self.types[x] == Z and t == B:
+                    g, t = f"(Z.b2z {g})", Z
+                else:
+                    self.fail(s, f"variable changes type {self.types[x]} -> {t}")
+            self.types[x] = t
+            return f"let {x} := {g} in\n{self.block(rest, k)}"
+        if isinstance(s, ast.AugAssign):
+            if not isinstance(s.target, ast.Name):
+                self.fail(s, "augmented target")
+            new = ast.Assign(targets=[ast.Name(id=s.target.id, ctx=ast.Store())],
+                             value=ast.BinOp(left=ast.Name(id=s.target.id, ctx=ast.Load()), op=s.op, right=s.value))
+            ast.copy_location(new, s)
+            ast.fix_missing_locations(new)
+            return self.block([new] + rest, k)
+        if isinstance(s, ast.Expr) and isinstance(s.value, ast.Call) and isinstance(s.value.func, ast.Attribute) \
+                and isinstance(s.value.func.value, ast.Name):
+            x = s.value.func.value.id
+            if self.types.get(x) != L:
+                self.fail(s, "method call on non-list")
+            if s.value.func.attr == "append" and len(s.value.args) == 1:
+                g, _ = self.expr(s.value.args[0], Z)
+                return f"let {x} := {x} ++ [{g}] in\n{self.block(rest, k)}"
+            if s.value.func.attr == "extend" and len(s.value.args) == 1:
+                g = self.iterable(s.value.args[0])
+                return f"let {x} := {x} ++ {g} in\n{self.block(rest, k)}"
+            self.fail(s, "list method")
+        if isinstance(s, ast.If):
+            c, _ = self.expr(s.test, B)
+            types0 = dict(self.types)
+            if self.always_returns(s.body) and (not s.orelse or self.always_returns(s.orelse) or True):
+                # if c: <returns>  [else: ...]; rest
+                if self.always_returns(s.body):
+                    then = self.block(s.body, None)
+                    self.types = dict(types0)
+                    els = self.block((s.orelse or []) + rest, k)
+                    return f"if {c} then\n{textwrap.indent(then, '  ')}\nelse\n{textwrap.indent(els, '  ')}"
+            if self.has_return(s.body) or self.has_return(s.orelse or []):
+                # returns somewhere inside but not on all paths: duplicate the rest into both branches
+                then = self.block(s.body + rest, k)
+                self.types = dict(types0)
+                els = self.block((s.orelse or []) + rest, k)
+                return f"if {c} then\n{textwrap.indent(then, '  ')}\nelse\n{textwrap.indent(els, '  ')}"
+            # no return inside: the if only updates variables
+            a_then, a_else = self.assigned(s.body), self.assigned(s.orelse or [])
+            mod = []
+            for v in a_then + a_else:
+                if v not in mod and (v in types0 or (v in a_then and v in a_else)):
+                    mod.append(v)
+            if not mod:
+                self.fail(s, "if without effect")
+            tup = self.tuple_of(mod)
+            then = self.block(s.body, lambda: tup)
+            t_then = dict(self.types)
+            self.types = dict(types0)
+            els = self.block(s.orelse or [], lambda: tup)
+            t_else = dict(self.types)
+            for v in mod:
+                if t_then.get(v) != t_else.get(v):
+                    self.fail(s, f"variable {v} has different types in the branches")
+            self.types = dict(types0)
+            for v in mod:
+                self.types[v] = t_then[v]
+            return (f"let {self.pat_of(mod)} := (if {c} then\n{textwrap.indent(then, '  ')}\nelse\n{textwrap.indent(els, '  ')}) in\n"
+                    f"{self.block(rest, k)}")
+        if isinstance(s, ast.For):
+            if s.orelse or not isinstance(s.target, ast.Name):
+                self.fail(s, "for loop shape")
+            if self.has_return(s.body):
+                self.fail(s, "return inside a loop")
+            v = s.target.id
+            lst = self.iterable(s.iter)
+            types0 = dict(self.types)
+            mod = [x for x in self.assigned(s.body) if x in types0 and x != v]
+            local = [x for x in self.assigned(s.body) if x not in types0 and x != v]
+            for n in rest:
+                for nm in ast.walk(n):
+                    if isinstance(nm, ast.Name) and isinstance(nm.ctx, ast.Load) and nm.id in local + [v]:
+                        # allowed only if re-assigned before use; be strict
+                        if nm.id not in self.assigned(rest):
+                            self.fail(s, f"loop-local variable {nm.id} is read after the loop")
+            self.types[v] = Z
+            tup = self.tuple_of(mod)
+            body = self.block(s.body, lambda: tup)
+            for x in mod:
+                if self.types[x] != types0[x]:
+                    self.fail(s, f"loop changes the type of {x}")
+            self.types = dict(types0)
+            if not mod:
+                self.fail(s, "loop without effect on earlier variables")
+            return (f"let {self.pat_of(mod)} := fold_left (fun {self.pat_of(mod, lam=True)} {v} =>\n{textwrap.indent(body, '  ')})\n"
+                    f"  {lst} {tup} in\n{self.block(rest, k)}")
+        self.fail(s, "statement")
+
+    def tuple_of(self, vs):
+        return vs[0] if len(vs) == 1 else "(" + ", ".join(vs) + ")"
+
+    def pat_of(self, vs, lam=False):
+        if len(vs) == 1:
+            return vs[0]
+        return "'(" + ", ".join(vs) + ")"
+
+    def translate(self, first, recursive):
+        f = self.node
+        params = self.cfg.get("params") or [a.arg for a in f.args.args]
+        for p in params:
+            self.types.setdefault(p, Z)
+        body = f.body
+        tymap = {Z: "Z", B: "bool", L: "list Z"}
+        ps = " ".join(f"({p} : {tymap[self.types[p]]})" for p in params)
+        ret = tymap[self.cfg.get("ret_type", Z)]
+        name = self.cfg.get("rename", f.name)
+        term = self.block(body, None)
+        if recursive:
+            kw = "Fixpoint" if first else "with"
+            default = {"Z": "0", "bool": "false", "list Z": "[]"}[ret]
+            return (f"{kw} {name} (fuel : nat) {ps} {{struct fuel}} : {ret} :=\n  match fuel with O => {default} | S fuel =>\n"
+                    + textwrap.indent(term, "  ") + "\n  end")
+        return f"Definition {name} {ps} : {ret} :=\n" + textwrap.indent(term, "  ") + "."
+
+
+class Translator:
+    def __init__(self, relpath, enums=None, consts=None, known_funcs=None):
+        self.relpath = relpath
+        with open(os.path.join(REPO, relpath), newline="") as fh:
+            self.src = fh.read().replace("\r\n", "\n")
+        self.tree = ast.parse(self.src)
+        self.funcs = {}
+        for n in ast.walk(self.tree):
+            if isinstance(n, ast.FunctionDef):
+                self.funcs.setdefault(n.name, n)
+        self.enums = enums or {}
+        self.consts = consts or {}
+        self.known_funcs = known_funcs or {}
+        self.groups = []
+
+    def group_names(self, cfg):
+        for g in self.groups:
+            if cfg["name"] in [c["name"] for c in g]:
+                return [c["name"] for c in g] + list(self.done)
+        return list(self.done)
+
+    def is_recursive(self, fname):
+        return fname in self.recursive
+
+    def run(self, groups):
+        """groups: list of lists of cfg dicts (a list with several entries = mutually recursive group)"""
+        self.groups = groups
+        self.cfg_by_name = {c["name"]: c for g in groups for c in g}
+        self.done = []
+        self.recursive = set()
+        out = []
+        for g in groups:
+            rec = g[0].get("recursive", False)
+            if rec:
+                self.recursive.update(c["name"] for c in g)
+            parts = []
+            for i, cfg in enumerate(g):
+                if cfg["name"] not in self.funcs:
+                    raise Unsupported(f"{self.relpath}: function {cfg['name']} not found")
+                parts.append(Fn(self, self.funcs[cfg["name"]], cfg).translate(i == 0, rec))
+            out.append("\n".join(parts) + ("." if rec else ""))
+            self.done.extend(c["name"] for c in g)
+        return "\n\n".join(out)
+
+
+HEADER = ("(* GENERATED by harness/translate.py from /repo/{src} - do not edit; regenerated on every ./check run *)\n"
+          "From Coq Require Import ZArith List Bool.\nFrom QV Require Import GenLib.\nImport ListNotations.\nOpen Scope Z_scope.\n\n")
+
+# name of generated file -> (source file, translator kwargs, groups)
+SPECS = {
+    "Gen_majority": ("qclib/gates/majority.py", {}, [[
+        {"name": "operate", "rename": "majority_degrees", "params": ["size_controls"], "ret_type": L,
+         "stop_before": "for k in n_controls", "return_var": "n_controls", "skip_first": 1}]]),
+    "Gen_unitary_counts": ("qclib/unitary.py", {"enums": {"qsd": 0, "csd": 1, "qr": 2}}, [
+        [{"name": "_cnot_count_iso", "recursive": True, "param_types": {"apply_a2": B}},
+         {"name": "_cnot_count_iso_qsd", "recursive": True, "param_types": {"apply_a2": B}}],
+        [{"name": "_cnot_count_estimate", "params": ["n_qubits", "decomposition", "iso", "apply_a2"],
+          "param_types": {"apply_a2": B}, "skip_first": 1, "fuel_expr": "(Z.to_nat (2 * n_qubits + 2))"}]]),
+    "Gen_isometry_counts": ("qclib/isometry.py", {}, [
+        [{"name": "_k_s"}], [{"name": "_a"}], [{"name": "_b"}],
+        [{"name": "_cnot_count_estimate_ccd"}]]),
+}
+
+
+def generate(name):
+    src, kw, groups = SPECS[name]
+    tr = Translator(src, **kw)
+    # drop leading statements that only bind parameters we pass explicitly (e.g. n = len(x))
+    for g in groups:
+        for cfg in g:
+            n = cfg.get("skip_first", 0)
+            if n:
+                node = tr.funcs[cfg["name"]]
+                body = [b for b in node.body if not (isinstance(b, ast.Expr) and isinstance(b.value, ast.Constant))]
+                skipped, node.body = body[:n], body[n:]
+                cfg["skipped_src"] = [ast.unparse(s) for s in skipped]
+                exp = cfg.get("skipped_expect") or EXPECT_SKIPPED.get((name, cfg["name"]))
+                if exp is not None and cfg["skipped_src"] != exp:
+                    raise Unsupported(f"{src}: leading statement(s) of {cfg['name']} changed: {cfg['skipped_src']} (expected {exp})")
+    body = tr.run(groups)
+    return HEADER.format(src=src) + body + "\n"
+
+
+EXPECT_SKIPPED = {
+    ("Gen_majority", "operate"): ["size_controls = len(controls)"],
+    ("Gen_unitary_counts", "_cnot_count_estimate"): ["n_qubits = int(log2(gate.shape[0]))"],
+}
+
+
+def regenerate(names=None):
+    """regenerate all Gen files; returns {name: error message} for those that could not be translated.
+    A file that cannot be translated is replaced by a stub that does not compile dependents silently:
+    it defines nothing, so every theorem about it breaks."""
+    from harness.coqtool import write_if_changed
+    fails = {}
+    for name in (names or SPECS):
+        path = os.path.join(THEORIES, name + ".v")
+        try:
+            text = generate(name)
+        except Unsupported as ex:
+            fails[name] = str(ex)
+            text = f"(* translation failed: {str(ex)!r} *)\n"
+        except Exception as ex:  # fail closed on anything unexpected
+            fails[name] = f"translator crashed: {type(ex).__name__}: {ex}"
+            text = f"(* translation failed: {fails[name]!r} *)\n"
+        write_if_changed(path, text)
+    return fails
+
+
+if __name__ == "__main__":
+    import sys
+    for n in (sys.argv[1:] or SPECS):
+        try:
+            print(generate(n))
+        except Unsupported as ex:
+            print("UNSUPPORTED", n, ex)
+
+
+def python_prefix_eval(relpath, fname, stop_before, return_var, local_env, global_env=None):
+    """Execute, in CPython, the statements of function `fname` up to (not including) the first statement whose
+    source starts with `stop_before`, with the given local variables; returns the value of `return_var`.
+    Used for translation validation of functions the translator cuts at the same statement."""
+    import importlib
+    with open(os.path.join(REPO, relpath), newline="") as fh:
+        src = fh.read().replace("\r\n", "\n")
+    tree = ast.parse(src)
+    fn = next(n for n in ast.walk(tree) if isinstance(n, ast.FunctionDef) and n.name == fname)
+    body = []
+    for s in fn.body:
+        if ast.unparse(s).startswith(stop_before):
+            break
+        body.append(s)
+    mod = ast.Module(body=body, type_ignores=[])
+    ast.fix_missing_locations(mod)
+    modname = relpath[:-3].replace("/", ".")
+    g = dict(vars(importlib.import_module(modname)))
+    if global_env:
+        g.update(global_env)
+    g.update(local_env)      # one namespace: comprehensions inside the prefix must see the locals
+    exec(compile(mod, relpath, "exec"), g)
+    return g[return_var]
